@@ -443,6 +443,9 @@ pub struct World {
     /// handle lives inside a heap value of the other arena (product scope): where it is
     pub lent: [Option<*const H>; 3],
     /// product scope plumbing for `Lend`: the handle coming in / where it ended up
+    /// heap snapshot taken by `check()` BEFORE its read-only queries (upgrade / is_dropped ...): the state's identity must not
+    /// depend on side effects those queries may have in a defective library (they only run on the last step of a replay)
+    pub snap_cache: RefCell<Option<gc_arena::verif::HeapSnap>>,
     pub incoming: Option<H>,
     pub lent_out: Option<*const H>,
     // ---- per-cycle bookkeeping for C07 ----
@@ -506,6 +509,7 @@ impl World {
             set_addrs,
             hs: [None, None, None],
             lent: [None, None, None],
+            snap_cache: RefCell::new(None),
             incoming: None,
             lent_out: None,
             mutated: false,
@@ -740,6 +744,7 @@ impl World {
         if !self.verify || self.arena.is_none() {
             return Ok(());
         }
+        *self.snap_cache.borrow_mut() = Some(self.arena().verif_heap_snapshot(SNAP_CAP));
         let reach = self.sh.reach_mask();
         let phase = self.phase();
         // C05: before a weak query the target block must still be allocated
@@ -863,7 +868,7 @@ impl World {
             }
             return;
         };
-        let snap = arena.verif_heap_snapshot(SNAP_CAP);
+        let snap = self.snap_cache.borrow().clone().unwrap_or_else(|| arena.verif_heap_snapshot(SNAP_CAP));
         let idof = |a: usize| -> Option<u8> {
             if let Some(i) = self.id_of_addr(a) {
                 return Some(i);
